@@ -514,10 +514,11 @@ func nameColumnsOfTable(stmt *ast.InsertStmt, metaData *types.TableMeta) {
 	}
 }
 
-// insertGivesItsKeys tells whether every row of an INSERT carries a value of its own for every primary-key column:
-// not NULL, not DEFAULT, not an expression, and not 0 for an AUTO_INCREMENT column. Otherwise the database assigns
-// the key, and the rows can only be found by the keys the result reports.
-func insertGivesItsKeys(ctx context.Context, parserCtx *types.ParseContext, execCtx *types.ExecContext) bool {
+// insertGivesUniqueValues tells whether some row of an INSERT gives the values of a unique index (the primary key
+// is one): such a row can meet a row that exists, and the images of the statement are those of an INSERT ... ON
+// DUPLICATE KEY UPDATE. When no row does, the database assigns the keys and the rows can only be found by the
+// keys the result reports.
+func insertGivesUniqueValues(ctx context.Context, parserCtx *types.ParseContext, execCtx *types.ExecContext) bool {
 	stmt := parserCtx.InsertStmt
 	if stmt == nil {
 		return true
@@ -531,29 +532,9 @@ func insertGivesItsKeys(ctx context.Context, parserCtx *types.ParseContext, exec
 		return true // (the executor reports it)
 	}
 	nameColumnsOfTable(stmt, metaData)
-	single := &insertExecutor{parserCtx: parserCtx, execContext: execCtx}
-	pkValues, err := single.parsePkValuesFromStatement(stmt, *metaData, execCtx.NamedValues)
-	if err != nil || len(pkValues) < len(metaData.GetPrimaryKeyOnlyName()) {
-		return false
-	}
-	for name, values := range pkValues {
-		columnMeta := metaData.GetPrimaryKeyMap()[name]
-		for _, value := range values {
-			if value == nil {
-				return false
-			}
-			if _, isCall := value.(*ast.FuncCallExpr); isCall {
-				return false
-			}
-			if _, isCall := value.(ast.FuncCallExpr); isCall {
-				return false
-			}
-			if columnMeta.Autoincrement && isZeroKey(value) {
-				return false
-			}
-		}
-	}
-	return true
+	upsert := &insertOnUpdateExecutor{parserCtx: parserCtx, execContext: execCtx}
+	with, _, err := upsert.rowsWithUniqueValues(stmt, *metaData, execCtx.NamedValues)
+	return err != nil || with > 0
 }
 
 // isZeroKey tells whether a key value of a statement is the number 0
